@@ -63,6 +63,8 @@ class Body:
             self.body, _ = bodies.make_rigid("sphere", bodies.rotations_3d()[0], self.centre0)
             cls, kw = sps.SphereForcingGrid, {"num_forcing_points_along_equator": MARKER_RESOLUTIONS[markers][1]}
         self.pose = 0
+        self.moving_start = bool(markers == "coarse")  # single-body cases with a coarse body also start moving
+        self.apply_pose()  # the body is in its (possibly moving) start state BEFORE the interactor is constructed
         self.inter = sps.RigidBodyFlowInteraction(
             rigid_body=self.body, eul_grid_forcing_field=forcing, eul_grid_velocity_field=velocity,
             virtual_boundary_stiffness_coeff=K_STIFF, virtual_boundary_damping_coeff=C_DAMP, dx=dx, grid_dim=dim, real_t=real_t,
@@ -86,8 +88,11 @@ class Body:
         if self.dim == 2:
             shift = shift * np.array([1, 1, 0])
         b.position_collection[:, 0] = self.centre0 + shift
-        vels = [np.array([0.0, 0.0, 0.0]), np.array([0.3, -0.2, 0.1]), np.array([-0.1, 0.25, -0.3])][p]
-        oms = [np.array([0.0, 0.0, 0.0]), np.array([0.2, -0.4, 0.7]), np.array([-0.5, 0.1, -0.3])][p]
+        # pose 0 of odd-numbered bodies is MOVING: the body already translates and spins when its interactor is constructed
+        # and when the first event of a history (possibly a time step) arrives
+        start = 1.0 if self.idx % 2 == 1 or self.moving_start else 0.0
+        vels = [np.array([0.15, -0.1, 0.05]) * start, np.array([0.3, -0.2, 0.1]), np.array([-0.1, 0.25, -0.3])][p]
+        oms = [np.array([0.1, 0.2, -0.3]) * start, np.array([0.2, -0.4, 0.7]), np.array([-0.5, 0.1, -0.3])][p]
         if self.dim == 2:
             vels = vels * np.array([1, 1, 0])
             oms = oms * np.array([0, 0, 1])
